@@ -322,34 +322,33 @@ Proof.
 Qed.
 
 Lemma reserved_covers_scope st sc : forall r,
-  In r (eval_reach_decls sc) -> sy_ns (getsym st r) = NsPinned ->
+  In r (tree_decls sc) -> sy_ns (getsym st r) = NsPinned ->
   In (sy_name (getsym st r)) (reservedForScope st sc).
 Proof.
   induction sc as [m g l e ch IHch] using scope_ind'. intros r I P. simpl in I |- *.
   apply in_app_iff in I as [I|I]; [apply in_app_iff; left; apply pinned_names_in; assumption|].
   apply in_app_iff in I as [I|I]; [apply in_app_iff; right; apply in_app_iff; left; apply pinned_names_in; assumption|].
   apply in_app_iff; right; apply in_app_iff; right.
-  destruct e; [|destruct I].
   induction IHch as [|c rest Hc Hr IH]; [destruct I|].
   apply in_app_iff in I as [I|I]; apply in_app_iff.
-  - left. destruct (sc_eval c); [apply Hc; assumption | destruct I].
+  - left. apply Hc; assumption.
   - right. apply IH. exact I.
 Qed.
 
 Lemma reserved_covers st mods msc r :
-  In msc mods -> In r (eval_reach_decls msc) -> sy_ns (getsym st r) = NsPinned ->
+  In msc mods -> In r (tree_decls msc) -> sy_ns (getsym st r) = NsPinned ->
   In (sy_name (getsym st r)) (ComputeReservedNames st mods).
 Proof.
   intros Im I P. unfold ComputeReservedNames. apply in_app_iff; right. apply in_app_iff; right.
   apply in_flat_map. exists msc. split; [exact Im | apply reserved_covers_scope; assumption].
 Qed.
 
-Lemma minify_avoids_pinned_partial_all mf :
+Lemma minify_avoids_pinned_all mf :
   NoDup (m_head mf) -> NoDup (m_tail mf) -> 1 <= zlen (m_head mf) -> 2 <= zlen (m_tail mf) ->
   forall fuel st slots firstc stable reserved pre groups m3 mods,
   minify_rename fuel st slots firstc stable reserved mf pre groups = Some m3 ->
   incl (ComputeReservedNames st mods) reserved ->
-  forall msc p, In msc mods -> In p (eval_reach_decls msc) -> sy_ns (getsym st p) = NsPinned ->
+  forall msc p, In msc mods -> In p (tree_decls msc) -> sy_ns (getsym st p) = NsPinned ->
   forall i, 0 <= i < Z.of_nat (length (ms_default m3)) ->
     slot_name (ms_default m3) i <> sy_name (getsym st p).
 Proof.
@@ -364,11 +363,11 @@ Proof.
   intros E. apply (NR eq_refl). rewrite E. apply Incl. eapply reserved_covers; eauto.
 Qed.
 
-Lemma number_avoids_pinned_partial_all fuel st reserved toplevel nested names mods :
+Lemma number_avoids_pinned_all fuel st reserved toplevel nested names mods :
   number_rename fuel st reserved toplevel nested = Some names ->
   wf_number st toplevel nested = true ->
   incl (ComputeReservedNames st mods) reserved ->
-  forall msc p, In msc mods -> In p (eval_reach_decls msc) -> sy_ns (getsym st p) = NsPinned ->
+  forall msc p, In msc mods -> In p (tree_decls msc) -> sy_ns (getsym st p) = NsPinned ->
   forall r n, lookup names r = Some n -> n <> sy_name (getsym st p).
 Proof.
   intros A W Incl msc p Im Ip Pp r n L E.
